@@ -104,7 +104,9 @@ Notation "x <~ o ;; q" := (rlift o (fun x => q)) (at level 61, o at next level, 
    otherwise the stream is followed by infinitely many zeros.  `cap` = the largest
    peek the reader supports (backend word size for the buffered reader, 32 for the
    unbuffered one). *)
-Record sreader := { sr_rest : bits; sr_pos : N }.
+(* sr_peeked: how many bits the last peek(s) made available for skip_bits_after_peek — the
+   contract of that hidden method is that it follows a peek of at least as many bits *)
+Record sreader := { sr_rest : bits; sr_pos : N; sr_peeked : N }.
 
 Section SpecReader.
   Variable E : endian.
@@ -114,9 +116,9 @@ Section SpecReader.
   Definition s_take (n : N) (s : sreader) : outcome (bits * sreader) :=
     let k := N.to_nat n in
     if (n <=? N.of_nat (length (sr_rest s))) then
-      Ok (firstn k (sr_rest s), {| sr_rest := skipn k (sr_rest s); sr_pos := sr_pos s + n |})
+      Ok (firstn k (sr_rest s), {| sr_rest := skipn k (sr_rest s); sr_pos := sr_pos s + n; sr_peeked := 0 |})
     else if strict then Err
-    else Ok (take_pad k (sr_rest s), {| sr_rest := []; sr_pos := sr_pos s + n |}).
+    else Ok (take_pad k (sr_rest s), {| sr_rest := []; sr_pos := sr_pos s + n; sr_peeked := 0 |}).
 
   Definition s_bits (n : N) (s : sreader) : outcome (N * sreader) :=
     if 64 <? n then Fail else
@@ -127,18 +129,21 @@ Section SpecReader.
      makes the Rust loop forever: Fuel. *)
   Definition s_unary (s : sreader) : outcome (N * sreader) :=
     match count_zeros (sr_rest s) with
-    | Some z => Ok (z, {| sr_rest := skipn (S (N.to_nat z)) (sr_rest s); sr_pos := sr_pos s + z + 1 |})
+    | Some z => Ok (z, {| sr_rest := skipn (S (N.to_nat z)) (sr_rest s); sr_pos := sr_pos s + z + 1; sr_peeked := 0 |})
     | None => if strict then Err else Fuel
     end.
 
   Definition s_peek (n : N) (s : sreader) : outcome (N * sreader) :=
     if (n =? 0) || (cap <? n) then Fail else
     match s_take n s with
-    | Ok (bs, _) => Ok (val E bs, s) | Err => Err | Fail => Fail | Fuel => Fuel end.
+    | Ok (bs, _) => Ok (val E bs, {| sr_rest := sr_rest s; sr_pos := sr_pos s; sr_peeked := N.max (sr_peeked s) n |})
+    | Err => Err | Fail => Fail | Fuel => Fuel end.
 
   Definition s_skipap (n : N) (s : sreader) : outcome sreader :=
+    if sr_peeked s <? n then Fail else
     match s_take n s with
-    | Ok (_, s') => Ok s' | Err => Fail | Fail => Fail | Fuel => Fuel end.
+    | Ok (_, s') => Ok {| sr_rest := sr_rest s'; sr_pos := sr_pos s'; sr_peeked := sr_peeked s - n |}
+    | Err => Fail | Fail => Fail | Fuel => Fuel end.
 
   Definition s_skip (n : N) (s : sreader) : outcome sreader :=
     match s_take n s with
@@ -148,7 +153,7 @@ Section SpecReader.
     {| p_bits := s_bits; p_unary := s_unary; p_peek := s_peek; p_skipap := s_skipap |}.
 End SpecReader.
 
-Definition sreader_of (bs : bits) : sreader := {| sr_rest := bs; sr_pos := 0 |}.
+Definition sreader_of (bs : bits) : sreader := {| sr_rest := bs; sr_pos := 0; sr_peeked := 0 |}.
 
 (* L0: the specification writer.  State = the bits written so far.  With `checks`
    a write whose value does not fit panics (feature "checks"). *)
